@@ -17,14 +17,14 @@ Definition check_real_feature (c : nat * list nat * feature * fres) : bool :=
   let '(n, ids, f, obs) := c in
   fres_eqb (feature_of_units default_rt push_updates (units_of n ids) f) obs.
 
-(* (profile, ids, interface, member, gate, observed result of calling the member through the device
-   object, no takeover).  play_url is refused while the gate is closed; start reaches every
-   connected push updater. *)
-Definition check_real_invoke (c : nat * list nat * iface * string * bool * callres) : bool :=
-  let '(n, ids, i, m, gate, obs) := c in
+(* (profile, ids, takeover list of the interface's relayer, interface, member, gate, observed result
+   of calling the member through the device object).  play_url is refused while the gate is
+   closed; start reaches every connected push updater. *)
+Definition check_real_invoke (c : nat * list nat * list proto * iface * string * bool * callres) : bool :=
+  let '(n, ids, take, i, m, gate, obs) := c in
   let us := eff (units_of n ids) [] in
   callres_eqb
-    (facade_call (expected_kind i m) (text_order i) None [] gate
+    (facade_call (expected_kind i m) (text_order i) None take gate
                  (map u_proto (filter (fun u => u_has u i) us))
                  (reg_units us i m))
     obs.
